@@ -116,7 +116,16 @@ pub fn record_buf(r: &AlnRec) -> RecordBuf {
     if let Some(p) = Position::new(r.pos) {
         b = b.set_alignment_start(p);
     }
-    let mut ops: Vec<Op> = r.ops.iter().map(|&(k, n)| Op::new(kind(k), n)).collect();
+    // BAM stores an operation length in 28 bits: longer operations are written as several of the same kind
+    const MAX_OP: usize = (1 << 28) - 1;
+    let mut ops: Vec<Op> = Vec::new();
+    for &(k, mut n) in &r.ops {
+        while n > MAX_OP {
+            ops.push(Op::new(kind(k), MAX_OP));
+            n -= MAX_OP;
+        }
+        ops.push(Op::new(kind(k), n));
+    }
     if r.with_seq {
         let read_len: usize = r.ops.iter().filter(|(k, _)| matches!(k, 'M' | 'I' | 'S' | '=' | 'X')).map(|(_, n)| n).sum::<usize>() + r.pad;
         if r.pad > 0 && !r.ops.is_empty() {
